@@ -1,5 +1,6 @@
 import RotondaModel.Model.Mrt
-/-! Line driver for the mrt-file-in model (C16). One case per input line. -/
+/-! Line driver for the mrt-file-in model (C16). One case per input line.
+Variant flags: `sc=`, `iso=`, `overlap=` `as-written` | `repaired` (default as-written). -/
 open Rotonda.Mrt
 
 def ADDRS : List String := ["10.0.0.1", "10.0.0.2", "192.0.2.7", "2001:db8::1", "2001:db8::2", "fe80::7"]
@@ -67,4 +68,4 @@ partial def loop (v : Variant) (h : IO.FS.Stream) (out : IO.FS.Stream) : IO Unit
 
 def main (args : List String) : IO Unit := do
   let site (k : String) : Site := if args.contains (k ++ "=repaired") then .repaired else .asWritten
-  loop ⟨site "sc", site "iso"⟩ (← IO.getStdin) (← IO.getStdout)
+  loop ⟨site "sc", site "iso", site "overlap"⟩ (← IO.getStdin) (← IO.getStdout)
